@@ -50,6 +50,10 @@ ENTRIES = [
          why="recovery installs the rebuilt index"),
     dict(props=["C04", "C09"], body="re:^" + re.escape(B) + r"::recover::RecoverRunner::run::\{closure#0\}$", call=r"manager::BlockManager::init$", start="entry_ok",
          why="recovery hands the clean / evictable partition of the blocks to the block manager"),
+    dict(props=["C04", "C01"], body="re:^" + re.escape(B) + r"::recover::RecoverRunner::run::\{closure#0\}::\{closure#\d+\}$", inner_call=r"HashMap::<K, V, S, A>::entry$", call=r"VacantEntry::<'a, K, V, A>::insert$|VacantEntry<'a, K, V, A>>::insert$|VacantEntry.*::insert$", start=("arm", "Vacant"),
+         why="recovery's dedup table records a hash the first time it is seen (entry or tombstone): otherwise keys with a single version are not recovered"),
+    dict(props=["C04", "C01"], body="re:^" + re.escape(B) + r"::recover::RecoverRunner::run::\{closure#0\}$", call=r"ops::FnMut::call_mut$|recover::RecoverRunner::run::\{closure#0\}::\{closure#\d+\}$", arg_ty=r"EntryAddressOrTombstone|\(u64, u64", exact=True, start=("agg", "foyer_storage::engine::block::recover::RecoverRunner::run::{closure#0}::EntryAddressOrTombstone"),
+         why="every scanned entry is offered to the dedup table"),
     dict(props=["C04", "C10"], body="re:^" + re.escape(B) + r"::tombstone::TombstoneLog::open::\{closure#0\}$", call=r"iter::Extend::extend$|Vec::<T, A>::extend$", start="entry_ok",
          why="the tombstones read from the log are returned to recovery: otherwise deleted keys come back after a restart"),
     dict(props=["C10"], body="re:^" + re.escape(B) + r"::tombstone::PageBuffer::open::\{closure#0\}$", call=r"tombstone::PageBuffer::update$", start="entry",
@@ -94,13 +98,13 @@ def _locate(F, e):
         if e.get("inner_call"):
             cands = [f for f in cands if f.calls_to(e["inner_call"])]
         else:
-            cands = [f for f in cands if f.calls_to(e["call"])] or cands
+            cands = cands if e.get("exact") else ([f for f in cands if f.calls_to(e["call"])] or cands)
     if not cands:
         raise AnchorMissing("must-call: body %s not found" % (b,))
     # an attribute macro (tracing) may have wrapped the body in a closure: descend while the obligation's call is only there
     out = []
     for f in cands:
-        if not f.calls_to(e["call"]):
+        if not f.calls_to(e["call"]) and not e.get("exact"):
             inner = [g for g in F.descendants(f) if g.calls_to(e["call"])]
             if inner:
                 f = inner[0]
@@ -185,7 +189,15 @@ def run_for(chk, F, prop):
                     # a path that comes round to another start point (next loop iteration) without the call counts as missing it
                     again = [b.idx for b in f.calls_to(e["start"][1])] if isinstance(e["start"], tuple) and e["start"][0] in ("ok", "after", "true", "false") else []
                     ok = bool(calls)
+                    g_ = f.graph()
                     for s0 in starts:
+                        if isinstance(e["start"], tuple) and e["start"][0] == "agg":
+                            # from the block that builds the value: leave it first, then coming back to any building block without the call counts as missing it
+                            if s0 in calls:
+                                continue
+                            reach = f.reachable([x for x in g_[s0] if not f.blocks[x].cleanup], avoid=calls + ends)
+                            ok = ok and not (set(f.returns() + starts) & reach)
+                            continue
                         reach = f.reachable([s0], avoid=calls + ends)
                         ok = ok and not (set(f.returns() + again) & reach)
                 what = "%s: %s from %s" % (f.short.rsplit("::", 2)[-2] + "::" + f.short.rsplit("::", 1)[-1] if "{closure" not in f.short else f.short.split("block::")[-1].split("foyer_memory::")[-1][:60],
